@@ -58,8 +58,8 @@ def eval_model(ctx):
 
 
 @prop('C15',
-      'ERRD at every handler (dyn Fn) call site: the Result is the return value or is consumed by `?`; '
-      'ORDER-O4: from the failure edge of that `?` no child evaluation, handler call or context write is reachable; '
+      'ERRD at every handler (dyn Fn) call site, and at every call of a helper that returns a handler\'s result as its own: the Result is the return value or is consumed by `?`; '
+      'ORDER-O4: from the failure edge of the `?` after a handler call or child evaluation no child evaluation, handler call or context write is reachable; '
       'LOCK-a: no guard live at a handler call (so unwinding out of a handler drops no guard in the panicking state: no poisoning, nothing left held); '
       'LOCK-c (NO-POISON): no undischarged engine panic site inside any guard-live region; '
       'UNWIND: no catch_unwind / abort / exit / panic=abort / user Drop impl / extern ABI, so a handler panic reaches the caller as an ordinary unwind. '
@@ -72,8 +72,26 @@ def c15(ctx):
     obs = []
     # ERRD at handler sites
     hs_bodies = [b for b in ctx.prog.bodies if em.handler_sites(b)] if em.exec else []
-    obs += r_errd.rule_errd(hs_bodies, rule='ERRD', only=lambda c: c.is_virtual or c.is_indirect)
-    obs += r_order.em_fallback(ctx.cache, ctx.prog, em, r_order.rule_o4, ('handler',))
+    # a handler's result that a helper merely returns (`Context::call`, `redirect_inner_function`) is judged again
+    # where the helper's result is consumed: carriers = bodies that return a handler result as their own
+    prog = ctx.prog
+    carriers = set()
+    changed = True
+    while changed:
+        changed = False
+        for b in prog.bodies:
+            if b.id in carriers or (em.exec and b.id == em.exec.id) or b.is_closure and False:
+                continue
+            for c in b.live_calls:
+                is_h = (c.is_virtual or c.is_indirect) and c in em.handler_sites(b)
+                if (is_h or c.ruid in carriers) and c.dest['l'] == 0 and not c.dest['p']:
+                    carriers.add(b.id)
+                    changed = True
+                    break
+    carrier_callers = [b for b in prog.bodies if any(c.ruid in carriers for c in b.live_calls)]
+    scope = {b.id: b for b in hs_bodies + carrier_callers}
+    obs += r_errd.rule_errd(list(scope.values()), rule='ERRD', only=lambda c: c.is_virtual or c.is_indirect or c.ruid in carriers)
+    obs += r_order.em_fallback(ctx.cache, ctx.prog, em, r_order.rule_o4, ('child', 'handler'))
     o2, n = r_lock.rule_lock_a(lm, want=('a', 'c'))
     obs += o2
     obs += r_lock.rule_once(lm)
@@ -305,6 +323,10 @@ def c03(ctx):
     obs += r_top.with_views(prog, r_top.rule_aggr, rows)
     obs += r_top.with_views(prog, r_top.rule_unary, rows)
     obs += r_top.with_views(prog, r_top.rule_fold, rows)
+    # conditional selection: the value of `c ? a : b` is that of the selected branch *and only that branch runs*
+    # (an assignment in the branch not taken would change later values)
+    o3 = r_order.em_fallback(ctx.cache, prog, eval_model(ctx), lambda e: [o for o in r_order.rule_order(e)[0] if o.rule in ('ORDER-O3',) or (o.rule == 'ORDER' and o.status == 'violated' and 'Ternary' in o.key)])
+    obs += o3
     return obs, {'analysed': {'builtin_handlers': len(hs), 'registered_rows': len(rows)}}
 
 
